@@ -64,6 +64,7 @@ def run(R):
             continue
         # several sections may share one reject file (same target twice, or -r): it holds the rejects of all of them, one after another
         per_file = {}
+        fails = [e for e in fails if e[2] > 0 or e[4]]      # ("0 out of 0 hunk ignored": a refused section without hunks has nothing to save)
         for e in fails:
             if not e[4]:
                 R.oracle_fail("failed hunks reported without saving them to a reject file", data); break
@@ -91,6 +92,8 @@ def run(R):
     R.dist["driver outcomes"] = dist
     import ties
     ties.t8(R, "T8-driver", cs[:150 if quick else 2500])
+    import interactive
+    ties.t8(R, "T8-driver-interactive", interactive.cases())
     # failed hunks must end up in the reject file or the run must say it could not save them: a reject file on a full device
     if os.path.exists("/dev/full"):
         a = [(b"one", "L"), (b"two", "L"), (b"three", "L")]
